@@ -39,7 +39,7 @@ theorem runActs_compose {σ : Type} (d : Sched ℚ σ) : ∀ (as bs : List (StAc
 /-- the kernel state `s` is the sound configuration `a`, whose ghost `put` list is the one of the history -/
 structure Inv (N scale F : Nat) (flow : Int → Nat) (cfg : VcCfg ℚ) (s : KS) (a : A) : Prop where
   k : KInv N scale F s a
-  a : AInv N scale F flow cfg a s.now
+  ai : AInv N scale F flow cfg a s.now
   l : LInv a (histOf s.trace)
 
 /-- **one kernel step**: it is `.ok`, keeps the invariant, uses one unit of the step budget, and is a sequence of actions the
@@ -50,11 +50,11 @@ theorem inv_step_lts (fuel : Nat) (h : Inv N scale F flow cfg s a) (hp : popMin 
       histOf s'.trace = histOf s.trace ++ new ∧
       ∃ acts, runActs (VC.sched cfg) (toM flow size cfg a s.now) acts =
         .ok (toM flow size cfg a' s'.now, putPk flow size new, outPk flow size new) := by
-  obtain ⟨s', a', new, h1, h2, h3, h4, h5⟩ := kstep (size := size) fuel h.k h.a hp
+  obtain ⟨s', a', new, h1, h2, h3, h4, h5⟩ := kstep (size := size) fuel h.k h.ai hp
   have hmin := (isMin_of_pop h.k hp).1
-  obtain ⟨g1, g2⟩ := astep_sound h.a hmin h3
-  obtain ⟨acts0, h0⟩ := lts_advance (size := size) h.a hmin
-  obtain ⟨acts, h7⟩ := lts_step (h.a.advance hmin) h.l h3
+  obtain ⟨g1, g2⟩ := astep_sound h.ai hmin h3
+  obtain ⟨acts0, h0⟩ := lts_advance (size := size) h.ai hmin
+  obtain ⟨acts, h7⟩ := lts_step (h.ai.advance hmin) h.l h3
   refine ⟨s', a', new, h1, ⟨h2, by rw [h4]; exact g1, by rw [h5]; exact linv_step h.l h3⟩, g2, h3, h4, h5,
     acts0 ++ acts, ?_⟩
   rw [h4]
